@@ -38,19 +38,24 @@ func caseSize(k kase) int {
 		if v < 0 {
 			v = -v
 		}
-		if v > 1<<20 {
-			v = 1 << 20
+		if v > 1<<40 {
+			v = 1 << 40
 		}
-		return int(v)
+		// prefer short decimal spellings
+		n := 0
+		for ; v > 0; v /= 2 {
+			n++
+		}
+		return n
 	}
 	for _, r := range []int{k.Rd, k.Rs1, k.Rs2, k.Rs3} {
 		if r != 0 {
-			n += 100000 + r
+			n += 1000 + r
 		}
 	}
 	n += abs(int64(k.Imm))
 	for _, o := range k.Ops {
-		n += 100000 + abs(o.Off) + abs(o.Imm) + len(o.Reg)
+		n += 1000 + abs(o.Off) + abs(o.Imm) + len(o.Reg)
 	}
 	return n
 }
@@ -82,6 +87,13 @@ func (d *dumper) flush(t *testing.T) {
 	sort.Strings(keys)
 	for _, key := range keys {
 		b := d.best[key]
+		b.k = minimize(b.k, key)
+		b.size = caseSize(b.k)
+		for _, f := range check(b.k, llvmSync).findings {
+			if f.key == key {
+				b.what = f.what
+			}
+		}
 		name := dumpSanitize.ReplaceAllString(key, "_") + ".json"
 		path := filepath.Join(d.dir, name)
 		// keep the simplest reproducer across shards
@@ -97,4 +109,80 @@ func (d *dumper) flush(t *testing.T) {
 		os.WriteFile(path, data, 0o644)
 	}
 	fmt.Fprintf(os.Stderr, "c17 dump: %d keys written to %s\n", len(keys), d.dir)
+}
+
+// hasFinding reports whether case k still shows the finding key.
+func hasFinding(k kase, key string) bool {
+	for _, f := range check(k, llvmSync).findings {
+		if f.key == key {
+			return true
+		}
+	}
+	return false
+}
+
+// minimize greedily simplifies a failing case while it keeps showing key:
+// numbers move towards 0, registers towards the first of their class, operands
+// that do not matter are dropped.  Deterministic, no randomness.
+func minimize(k kase, key string) kase {
+	if !hasFinding(k, key) {
+		return k
+	}
+	try := func(c kase) bool {
+		c.Expect = key
+		if caseSize(c) < caseSize(k) && hasFinding(c, key) {
+			k = c
+			return true
+		}
+		return false
+	}
+	nums := func(v int64) []int64 {
+		return []int64{0, 1, -1, 2, 4, v / 2, v / 16, v - 1, v + 1, int64(int32(v)), 1 << 31, 1<<32 - 1}
+	}
+	for round := 0; round < 6; round++ {
+		changed := false
+		for _, v := range nums(int64(k.Imm)) {
+			c := k
+			c.Imm = int32(v)
+			changed = try(c) || changed
+		}
+		for i, p := range []*int{&k.Rd, &k.Rs1, &k.Rs2, &k.Rs3} {
+			for _, v := range []int{0, 1, 2, 33, 34, *p - 1} {
+				c := k
+				*[]*int{&c.Rd, &c.Rs1, &c.Rs2, &c.Rs3}[i] = v
+				changed = try(c) || changed
+			}
+		}
+		for i := range k.Ops {
+			o := k.Ops[i]
+			var alts []xop
+			for _, v := range nums(o.Imm) {
+				a := o
+				a.Imm = v
+				alts = append(alts, a)
+			}
+			for _, v := range nums(o.Off) {
+				a := o
+				a.Off = v
+				alts = append(alts, a)
+			}
+			for _, r := range []string{"rax", "eax", "al", "rcx", "ecx", "rbp", "r8", "r8d"} {
+				a := o
+				if a.Kind != "imm" {
+					a.Reg = r
+					alts = append(alts, a)
+				}
+			}
+			for _, a := range alts {
+				c := k
+				c.Ops = append([]xop{}, k.Ops...)
+				c.Ops[i] = a
+				changed = try(c) || changed
+			}
+		}
+		if !changed {
+			break
+		}
+	}
+	return k
 }
